@@ -29,6 +29,45 @@ type loopCtx struct {
 	ivar     types.Object
 	bound    string // canonical text of the bound expression ("" if constant/none)
 	boundObj types.Object
+	// offset aliases: a local defined in the current statement list as
+	// <ivar|bound> ± c, valid while neither it nor its source has changed
+	aliases map[types.Object]offAlias
+	version int // bumped at every change of the induction variable or the bound
+}
+
+type offAlias struct {
+	ofBound bool
+	off     int
+	version int
+}
+
+// offsetOf recognises  x ± c  (x the induction variable or the bound).
+func (lc *loopCtx) offsetOf(e ast.Expr) (isI, isB bool, off int, ok bool) {
+	e = ast.Unparen(e)
+	if lc.isIvar(e) {
+		return true, false, 0, true
+	}
+	if lc.isBound(e) {
+		return false, true, 0, true
+	}
+	be, isBin := e.(*ast.BinaryExpr)
+	if !isBin || (be.Op != token.ADD && be.Op != token.SUB) {
+		return false, false, 0, false
+	}
+	c, cok := constInt(lc.info, be.Y)
+	if !cok {
+		return false, false, 0, false
+	}
+	if be.Op == token.SUB {
+		c = -c
+	}
+	switch {
+	case lc.isIvar(be.X):
+		return true, false, c, true
+	case lc.isBound(be.X):
+		return false, true, c, true
+	}
+	return false, false, 0, false
 }
 
 func constInt(info *types.Info, e ast.Expr) (int, bool) {
@@ -53,11 +92,25 @@ func (lc *loopCtx) isBound(e ast.Expr) bool {
 // statement).  Paths that leave the loop are dropped.
 func (lc *loopCtx) walk(stmts []ast.Stmt, in []delta, res *pathSet) []delta {
 	cur := in
+	// aliases live only inside the statement list that defines them: between
+	// definition and use nothing but the statements in between can run
+	saved := lc.aliases
+	lc.aliases = map[types.Object]offAlias{}
+	defer func() { lc.aliases = saved }()
 	for _, st := range stmts {
 		if len(cur) == 0 {
 			return nil
 		}
 		cur = lc.stmt(st, cur, res)
+		if as, ok := st.(*ast.AssignStmt); ok && as.Tok == token.DEFINE && len(as.Lhs) == 1 && len(as.Rhs) == 1 {
+			if id, ok := as.Lhs[0].(*ast.Ident); ok {
+				if o := lc.info.Defs[id]; o != nil {
+					if _, isB, off, ok := lc.offsetOf(as.Rhs[0]); ok {
+						lc.aliases[o] = offAlias{ofBound: isB, off: off, version: lc.version}
+					}
+				}
+			}
+		}
 	}
 	return cur
 }
@@ -116,23 +169,46 @@ func (lc *loopCtx) stmt(st ast.Stmt, cur []delta, res *pathSet) []delta {
 			d = -1
 		}
 		if lc.isIvar(s.X) {
+			lc.version++
 			return addDelta(cur, d, 0)
 		}
 		if lc.isBound(s.X) {
+			lc.version++
 			return addDelta(cur, 0, d)
 		}
 		return cur
 	case *ast.AssignStmt:
+		for _, l := range s.Lhs {
+			// a reassigned alias is no alias any more
+			if id, ok := ast.Unparen(l).(*ast.Ident); ok && s.Tok != token.DEFINE {
+				if o := lc.info.Uses[id]; o != nil {
+					delete(lc.aliases, o)
+				}
+			}
+		}
 		for i, l := range s.Lhs {
 			isI, isB := lc.isIvar(l), lc.isBound(l)
 			if !isI && !isB {
 				continue
 			}
+			lc.version++
 			c, ok := 0, false
 			if len(s.Rhs) == len(s.Lhs) {
 				c, ok = constInt(lc.info, s.Rhs[i])
 			}
+			// x = x ± c, or x = a where a := x ± c is still current
+			plain := false
+			if s.Tok == token.ASSIGN && len(s.Rhs) == len(s.Lhs) {
+				if rI, rB, off, ok2 := lc.offsetOf(s.Rhs[i]); ok2 && rI == isI && rB == isB {
+					c, plain = off, true
+				} else if id, isId := ast.Unparen(s.Rhs[i]).(*ast.Ident); isId {
+					if al, has := lc.aliases[lc.info.Uses[id]]; has && al.ofBound == isB && al.version == lc.version-1 {
+						c, plain = al.off, true
+					}
+				}
+			}
 			switch {
+			case plain:
 			case ok && s.Tok == token.ADD_ASSIGN:
 			case ok && s.Tok == token.SUB_ASSIGN:
 				c = -c
@@ -1071,6 +1147,78 @@ func nonNilByCompanion(v ssa.Value, useBlk *ssa.BasicBlock) bool {
 		return false
 	}
 	res := sc.Signature.Results()
+	// error companion: the callee returns a nil error only together with a
+	// fresh pointer, and the use is on the `err == nil` side of a test
+	for j := 0; j < res.Len(); j++ {
+		if j == ex.Index || !types.Identical(res.At(j).Type(), types.Universe.Lookup("error").Type()) {
+			continue
+		}
+		paired := true
+		for _, b := range sc.Blocks {
+			ret, ok := b.Instrs[len(b.Instrs)-1].(*ssa.Return)
+			if !ok || len(ret.Results) != res.Len() {
+				continue
+			}
+			ri, rj := ret.Results[ex.Index], ret.Results[j]
+			if kj, isKj := rj.(*ssa.Const); !isKj || !kj.IsNil() {
+				// error not the nil constant: it must be known non-nil, or the pointer fresh
+				if mi, ok := rj.(*ssa.MakeInterface); ok && mi != nil {
+					continue
+				}
+				if c2, ok := rj.(*ssa.Call); ok {
+					if f := c2.Call.StaticCallee(); f != nil && (f.String() == "fmt.Errorf" || f.String() == "errors.New") {
+						continue
+					}
+				}
+				if u, ok := rj.(*ssa.UnOp); ok && u.Op == token.MUL {
+					if g, ok := u.X.(*ssa.Global); ok && strings.HasPrefix(g.Name(), "err") {
+						continue
+					}
+				}
+			}
+			switch y := ri.(type) {
+			case *ssa.Alloc:
+			case *ssa.Call:
+				if c2 := y.Call.StaticCallee(); c2 == nil || !strings.HasPrefix(c2.Name(), "New") {
+					paired = false
+				}
+			default:
+				paired = false
+			}
+		}
+		if !paired {
+			continue
+		}
+		fn := useBlk.Parent()
+		for _, d := range fn.Blocks {
+			if len(d.Instrs) == 0 || !(d == useBlk || d.Dominates(useBlk)) {
+				continue
+			}
+			iff, ok := d.Instrs[len(d.Instrs)-1].(*ssa.If)
+			if !ok {
+				continue
+			}
+			bo, ok := iff.Cond.(*ssa.BinOp)
+			if !ok || (bo.Op != token.NEQ && bo.Op != token.EQL) {
+				continue
+			}
+			isErr := func(v ssa.Value) bool {
+				ce, ok := v.(*ssa.Extract)
+				return ok && ce.Tuple == ex.Tuple && ce.Index == j
+			}
+			isNil := func(v ssa.Value) bool { k, ok := v.(*ssa.Const); return ok && k.IsNil() }
+			if !(isErr(bo.X) && isNil(bo.Y)) && !(isErr(bo.Y) && isNil(bo.X)) {
+				continue
+			}
+			side := 1 // err != nil: the false edge is the err == nil side
+			if bo.Op == token.EQL {
+				side = 0
+			}
+			if t := d.Succs[side]; (t == useBlk || t.Dominates(useBlk)) && len(t.Preds) == 1 {
+				return true
+			}
+		}
+	}
 	for j := 0; j < res.Len(); j++ {
 		bt, isB := res.At(j).Type().Underlying().(*types.Basic)
 		if !isB || bt.Kind() != types.Bool || j == ex.Index {
@@ -1121,10 +1269,46 @@ func nonNilByCompanion(v ssa.Value, useBlk *ssa.BasicBlock) bool {
 	return false
 }
 
+// testedNonNil: the use is dominated by the non-nil side of a test of the
+// very same SSA value against nil (if p != nil { return p, nil }).
+func testedNonNil(v ssa.Value, useBlk *ssa.BasicBlock) bool {
+	if useBlk == nil {
+		return false
+	}
+	if _, isPtr := v.Type().Underlying().(*types.Pointer); !isPtr {
+		return false
+	}
+	for _, d := range useBlk.Parent().Blocks {
+		if len(d.Instrs) == 0 || !(d == useBlk || d.Dominates(useBlk)) {
+			continue
+		}
+		iff, ok := d.Instrs[len(d.Instrs)-1].(*ssa.If)
+		if !ok {
+			continue
+		}
+		bo, ok := iff.Cond.(*ssa.BinOp)
+		if !ok || (bo.Op != token.NEQ && bo.Op != token.EQL) {
+			continue
+		}
+		isNil := func(w ssa.Value) bool { k, ok := w.(*ssa.Const); return ok && k.IsNil() }
+		if !(bo.X == v && isNil(bo.Y)) && !(bo.Y == v && isNil(bo.X)) {
+			continue
+		}
+		side := 0
+		if bo.Op == token.EQL {
+			side = 1
+		}
+		if t := d.Succs[side]; (t == useBlk || t.Dominates(useBlk)) && len(t.Preds) == 1 {
+			return true
+		}
+	}
+	return false
+}
+
 func nonNilObj(v ssa.Value) bool {
 	switch x := v.(type) {
 	case *ssa.MakeInterface:
-		if nonNilByCompanion(x.X, x.Block()) {
+		if nonNilByCompanion(x.X, x.Block()) || testedNonNil(x.X, x.Block()) {
 			return true
 		}
 		switch y := x.X.(type) {
